@@ -43,6 +43,29 @@ NEEDS = {
  "C20-A": "{:.N} of a value below 10^-(N+1) prints 0 without asking the mode: visible only when the build's default rounding mode is Up, Ceiling (positive) or Floor (negative)",
  "C20-B": "division produces one extra digit: visible when the first integer quotient already fills the configured precision (every inexact quotient at RUST_BIGDECIMAL_DEFAULT_PRECISION=1)",
 }
+
+NEEDS.update({
+ "C01-H": "normalized() rewritten by counting factors of 2 and 5: wrong when v5 >= 54 and 1 <= v2 < 27*(floor(v5/27)-1) (N even, divisible by 5^54, >= 38 digits); reached through &one * &x, &x * &BigInt(1), ...",
+ "C02-H": "word-wise == forgets a carry left after the last word: A + 2^(32n) == B*10^k exactly, scale gap k in {2,3,5,6,9} (e.g. 2.705032704 == 7)",
+ "C03-H": "Hash streams digits through a 256-byte block and assumes its tail is '0': int_val longer than 256 characters (not a multiple of 256) with a negative scale",
+ "C04-H": "divide-and-conquer digit conversion above 4096 bits skips an all-zero upper half of an interior block: >= 1234 digits with an aligned zero run above non-zero digits (10^2000 + 1)",
+ "C05-H": "8-bytes-at-a-time digit test checks only the high nibble: ':;<=>?' accepted inside an 8-byte block of a short numeral ('12:34:56')",
+ "C06-H": "chunked all-zero scan of the discarded digits skips the top (L mod 8) digits when L >= 9 and L mod 8 != 0 (1.5100000000 HalfDown)",
+ "C07-H": "context-aware sum replaces low digits of the finer operand by a sticky digit assuming no cancellation: operands of opposite sign agreeing in 38+ leading digits (x + (-1) with x = 1.000...04567)",
+ "C08-H": "numerator cut to den_digits+120 leading digits without a sticky digit: odd divisor > 64 bits, numerator >= 2*(den_digits+120) digits, remainder exactly (den-1)/2 and discarded tail >= 1/2",
+ "C09-H": "&a % &b shortcut with a fixed-point log10(2) digit bound that is one short at 1651 bits: scale gap D in {497, 643, 848, ...}, a = 10^D + small, b = +-1",
+ "C10-H": "over-long radicands: the dropped tail is tested for zero with BINARY trailing zeros: > 2(p+5)+19 digits, perfect-square head on a rounding boundary, tail = even digit followed by zeros",
+ "C11-H": "same binary/decimal trailing-zero confusion in cbrt: coefficient >= 6p+24 digits, perfect-cube head, dropped tail divisible by 2^drop ((2e10)^3 + 2^15)",
+ "C12-H": "divisor truncated to 308 digits when beyond f64 range: magnitude >= 2^1024 together with a requested precision >= 308",
+ "C13-H": "series termination compares digits but not scale: argument matching, to ~103 significant digits, an irrational root of x^(n+1)/(n+1)! = (10^k-1)*S_n(x) (28.9310242177754...)",
+ "C14-H": "u64 product shortcut in f64 -> decimal guarded by u32 instead of 24 bits: odd numerator in [2^24, 2^32) over 2^14..2^17 (200.00000762939453125)",
+ "C15-H": "with_scale truncation computed as (n >> k) / 5^k: negative values with scale >= 20 whose fraction starts with >= 14 nines (to_bigint(-7.99999999999999999999873) = -8)",
+ "C16-H": "{:.N} on decimals with >= 1024 digits and scale >= N+1040 truncates before rounding (double rounding): tie digits followed by a far-away non-zero digit",
+ "C17-H": "fraction digits accumulated in a u128 with an off-by-one room check: 39+ fraction digits spelling 2^128 .. 2^128+3",
+ "C18-H": "digit count from an integer approximation of log10(2) with 9 decimals: wrong for 10^8651 <= |n| < 2^28738 only (below 10^10000)",
+ "C19-H": "set_scale narrows the gap to u8 before the range test: owned+owned / owned-owned with a scale gap in 256..275 (reached in a program only through operands carrying such scales)",
+ "C20-H": "division truncates remainder and denominator when the denominator has more than P+20 digits: exact-tie quotients produced by the digit loop come out one unit low (1.25 at precision 2 with 25-digit operands)",
+})
 root = '/verif/seeded'
 rows = []
 for d in sorted(os.listdir(root)):
@@ -53,7 +76,7 @@ for d in sorted(os.listdir(root)):
     for f in glob.glob(os.path.join(p, 'detect_*.json')):
         j = json.load(open(f)); det[j['tier']] = {"detected": j['detected'], "exit_code": j['exit_code'], "violation_lines": j['violation_lines'], "first_violation": j['first_violation'].strip()[:300]}
     meta = {
-        "id": d, "breaks_property": d.split('-')[0], "origin": "independent sub-agent given only the property text and a scratch worktree",
+        "id": d, "breaks_property": d.split('-')[0], "origin": "independent sub-agent given only the property text and a scratch worktree" + (" (second wave: asked for changes designed to escape small-scope and constant-boundary enumeration)" if d.endswith("-H") else ""),
         "needs_to_manifest": NEEDS.get(d, ""),
         "confirmed_in_scratch_worktree": ver,
         "what_i_ran": ["tools/seed_ingest.sh (patch applies to /repo HEAD, repo suite with patch, demo with/without patch)", "tools/seed_run.sh <id> <tier> (git apply to /repo, ./check <prop> <tier>, git checkout -- .)"],
